@@ -65,7 +65,7 @@ def gen_ops(rng, sz, n, writable=True, whences=(0, 0, 0, 1, 1, 2, 2, 3), refused
             pos += left if a < 0 else min(a, left)
         elif c < 7:
             a, w = gen_arg(rng, sz), rng.choice(whences)
-            ops.append(['s', a, w])
+            ops.append(['s', a, w] + (['kw'] if spellings and rng.random() < 0.3 else []))
             if w == 0 and a >= 0:
                 pos = a
             elif w == 1:
@@ -213,7 +213,8 @@ class Contract:
         elif kind == 's':
             off, wh = op[1], op[2]
             try:
-                p = v.seek(off, wh)
+                # pyctr's views name their parameters: seek(offset, whence=2) is the same call
+                p = v.seek(off, whence=wh) if len(op) > 3 and op[3] == 'kw' else v.seek(off, wh)
             except Exception as e:
                 name = pyenv.errname(e)
                 self.results.append('e:' + name)
